@@ -2,7 +2,35 @@
 
 Reads algorithms/ssi.py and algorithms/plscf.py of the CURRENT working tree and emits
 lean/PyomaVerif/Generated/HcProgs.lean.  Fails closed: any statement that touches a
-tracked variable and is outside the grammar aborts the translation (Fail)."""
+tracked variable and is outside the grammar aborts the translation (Fail).
+
+What "touches" means (`Tr.inert`): a statement (or a sub-expression of a modelled statement that the
+model ignores, e.g. the third argument of `gen.applymask`) is skipped only if it can neither re-bind,
+nor mutate in place, nor create an alias/view of a protected variable:
+
+* protected = the tracked tables, masks, lists and the label table (mutable objects), the threshold /
+  flag variables read from `hc`, and the `hc` dictionary itself;
+* no protected name may occur in Store/Del context (plain, augmented, annotated, walrus, `for`/`with`/
+  `except ... as` targets, comprehension variables, `del`, `global`/`nonlocal`);
+* a tracked *object* may be mentioned in Load context only where nothing can be written through the
+  mention and no reference to it can escape: `X.shape/.ndim/.size/.dtype`, `X is [not] None`, and as the
+  single positional argument of a short list of pure functions (`len`, `np.isnan`, `np.sum`, ...).
+  Everything else -- `X[...] = v`, `X[...] *= v`, `X.fill(v)`, `np.putmask(X, ...)`, `np.copyto(X, ...)`,
+  `Y = X`, `Y = X[:, :k]`, `foo(X)`, `[X, ...]` outside the list grammar, `for t in (X, Y): ...` -- fails;
+* `hc` may only be read as `hc["key"]`; any other `.hc` attribute access fails;
+* nested functions / lambdas / classes that mention a name which is protected at any time fail
+  (a closure could write the variable later), as do `exec`, `eval`, `locals`, `vars`, `globals`;
+* a `return` / `yield` inside a skipped statement fails (the modelled statements are read as straight-line code);
+  statements after the `return` of the result, a second pole computation / `SC_apply` / binding of `hc`, re-binding
+  of `gen`, `np`, `self`, `len`, ... fail.
+
+One in-place form is modelled instead of refused: `X[np.logical_not(m)] = np.nan` with `X` a tracked table and `m` a
+tracked mask is `Stmt.blank X m` (the `np.where(m, X, nan)` of `applymask`, written into the same object).  Because
+the model has value semantics, every list snapshot that still holds the mutated object is marked stale and any later
+use of it fails.  NOT modelled, on purpose: `X[~m] = np.nan` / `np.invert(m)` -- four of the five masks of the library
+(`HC_damp`, `HC_cov`, both of `HC_phi_comp`) are 0/1 INTEGER arrays, for which `~m` is the bitwise complement (-1/-2) and
+the subscript an integer (row) index, not a boolean mask; the model's masks are Boolean and cannot tell the difference
+(found by the C09 oracle on a scratch tree that used `~mask2`)."""
 import ast
 import os
 
@@ -13,6 +41,16 @@ POLE_FUNCS = {
     ("plscf", "pLSCF_poles"): ["Tbl.fn", "Tbl.xi", "Tbl.phi", "Tbl.lam"],
 }
 CLASSES = [("ssi", "SSIdat"), ("ssi", "SSIcov"), ("ssi", "SSIdat_MS"), ("ssi", "SSIcov_MS"), ("plscf", "pLSCF"), ("plscf", "pLSCF_MS")]
+
+
+SAFE_ATTRS = {"shape", "ndim", "size", "dtype", "nbytes", "itemsize"}
+# pure functions of ONE positional argument whose result shares no memory with it (a second positional argument of a
+# ufunc is `out`); keywords restricted to PURE_KW
+PURE_NP = {"isnan", "isfinite", "count_nonzero", "sum", "nansum", "any", "all", "shape", "ndim", "size", "nanmax", "nanmin"}
+PURE_BUILTIN = {"len", "type", "id"}
+PURE_KW = {"axis", "keepdims"}
+DENY_NAMES = {"exec", "eval", "locals", "vars", "globals", "setattr", "delattr", "__import__"}
+NAN_EXPRS = {"np.nan", "np.NaN", "np.NAN", "numpy.nan", "float('nan')", "math.nan"}
 
 
 class Fail(Exception):
@@ -44,9 +82,32 @@ def _is_call(v, mod=None, fn=None):
 def _assigned(st):
     out = set()
     for n in ast.walk(st):
-        if isinstance(n, ast.Name) and isinstance(n.ctx, ast.Store):
+        if isinstance(n, ast.Name) and isinstance(n.ctx, (ast.Store, ast.Del)):
             out.add(n.id)
+        elif isinstance(n, (ast.Global, ast.Nonlocal)):
+            out |= set(n.names)
+        elif isinstance(n, ast.ExceptHandler) and n.name:
+            out.add(n.name)
+        elif isinstance(n, ast.alias):
+            out.add((n.asname or n.name).split(".")[0])
+        elif isinstance(n, (ast.FunctionDef, ast.AsyncFunctionDef, ast.ClassDef)):
+            out.add(n.name)
+        elif hasattr(ast, "MatchAs") and isinstance(n, (ast.MatchAs, ast.MatchStar)) and n.name:
+            out.add(n.name)
+        elif hasattr(ast, "MatchMapping") and isinstance(n, ast.MatchMapping) and n.rest:
+            out.add(n.rest)
     return out
+
+
+def _parents(node):
+    par = {}
+    for p in ast.walk(node):
+        for ch in ast.iter_child_nodes(p):
+            par[ch] = p
+    return par
+
+
+RESERVED = {"np", "gen", "ssi", "plscf", "self"} | PURE_BUILTIN
 
 
 class Tr:
@@ -70,30 +131,152 @@ class Tr:
         self.helper_ret = None
         self.inplace = set()  # caller variables overwritten in place by conditional rebindings inside a helper
         self.poisoned = set()  # ... that the caller did NOT re-bind from the helper's results: any later use fails closed
+        self.np_ok = True  # the module binds `np` by `import numpy as np` only
+        self.gen_sig = {}  # gen function -> parameter names (from functions/gen.py of the tree), for keyword arguments
+        self.rp_names = set()  # local names that stand for self.run_params (single assignment `rp = self.run_params`)
+        self.ever = set()  # every LOCAL name (per function scope: (scope id, name)) that stood for a protected variable
+        self.scopes = []  # FunctionDefs whose bodies were translated (run + inlined helpers), for the closure check
+        self.nbind = 0
+        self.version = {}  # canonical variable -> ids of the bindings that may be the current one (object identity)
+        self.listsnap = {}  # list variable -> [(element variable, binding id)] of the objects the list may hold
+        self.stale = set()  # list variables that still hold an object mutated in place afterwards
+        self.scope = None
+
+    # ------------------------------------------------------------------ names
+    def canon(self, name):
+        """canonical variable of a local name, None for a name that cannot stand for a caller variable"""
+        if name in self.alias:
+            return self.alias[name]
+        return None if self.prefix else name
+
+    def kind(self, c):
+        if c is None:
+            return None
+        if c in self.tracked:
+            return "obj"
+        if c in self.thr or c in self.flags:
+            return "scalar"
+        if self.hcvar is not None and c == self.hcvar:
+            return "hc"
+        return None
+
+    def protected(self, name):
+        return self.kind(self.canon(name)) is not None or (not self.prefix and self.kind(name) is not None)
 
     def r(self, name):
         """canonical variable a local name stands for"""
         c = self.alias.get(name, name)
         if c in self.poisoned and not self.prefix:
             raise Fail(f"{name}: conditionally rebound inside a helper and used by the caller afterwards without being re-bound")
+        if c in self.stale:
+            raise Fail(f"{name}: list that still holds a table which was blanked in place after the list was built")
         return c
 
-    def bindname(self, name, guards=()):
+    def forget(self, c, guards=()):
+        """`c` is about to be (re)bound by a modelled statement: nothing known about its previous value survives"""
+        self.thr.pop(c, None)
+        self.flags.pop(c, None)
+        self.lists.discard(c)
+        self.listelts.pop(c, None)
+        self.listsnap.pop(c, None)
+        self.stale.discard(c)
+        self.tblof.pop(c, None)
+        if self.hcvar == c:
+            self.hcvar = None
+        if self.lab == c:
+            self.lab = None
+        self.nbind += 1
+        # under a guard the previous object may still be the current one
+        self.version[c] = (self.version.get(c, {0}) if guards else set()) | {self.nbind}
+
+    def bindname(self, name, guards=(), modelled=False):
         """a (re)binding of a local name: the name itself at top level; inside an inlined helper a fresh canonical variable,
         except for a CONDITIONAL rebinding of a name that already stands for a variable: both paths must then agree on the
         variable, so the existing one is overwritten in place (checked at the helper's return)"""
+        if name in RESERVED or name in DENY_NAMES:
+            raise Fail(f"re-binding of the reserved name {name}")
+        if modelled:
+            self.ever.add((id(self.scope), name))
         if not self.prefix:
             self.alias[name] = name
-            return name
-        if guards and name in self.alias:
+            c = name
+        elif guards and name in self.alias:
             c = self.alias[name]
             if not c.startswith(self.prefix):
                 self.inplace.add(c)
-            return c
-        c = f"{self.prefix}{name}"
-        self.alias[name] = c
+        else:
+            c = f"{self.prefix}{name}"
+            self.alias[name] = c
+        if modelled:
+            self.forget(c, guards)
         return c
 
+    def bind_m(self, name, guards=()):
+        return self.bindname(name, guards, modelled=True)
+
+    # ------------------------------------------------------------------ the fail-closed rule for everything outside the grammar
+    def why_not_inert(self, node):
+        """None if `node` (a statement, or a sub-expression the model ignores) can neither re-bind, nor mutate, nor leak a
+        reference to a protected variable; else the reason.  No side effects."""
+        par = _parents(node)
+        for n in ast.walk(node):
+            if isinstance(n, (ast.Return, ast.Yield, ast.YieldFrom, ast.Await)):
+                return "a second exit (return / yield / await) of the function: the statements after it would not be straight-line code"
+            if isinstance(n, ast.Attribute) and n.attr == "hc":
+                return f"access to the criteria dictionary outside the grammar: {ast.unparse(n)[:60]}"
+            if isinstance(n, ast.Name) and n.id in DENY_NAMES:
+                return f"use of {n.id}"
+            if isinstance(n, ast.Name) and isinstance(n.ctx, ast.Load) and self.protected(n.id):
+                c = self.r(n.id)
+                k = self.kind(c) or self.kind(n.id)
+                p = par.get(n)
+                if k == "scalar":
+                    continue  # reads of a threshold / flag are harmless (writes through it are caught below)
+                if k == "hc":
+                    if isinstance(p, ast.Subscript) and p.value is n and isinstance(p.ctx, ast.Load) and isinstance(p.slice, ast.Constant):
+                        continue
+                    return f"the criteria dictionary {n.id} used other than as {n.id}[\"key\"]: {ast.unparse(p)[:60] if p is not None else n.id}"
+                # a tracked object
+                if isinstance(p, ast.Attribute) and p.value is n and isinstance(p.ctx, ast.Load) and p.attr in SAFE_ATTRS:
+                    continue
+                if (
+                    isinstance(p, ast.Compare)
+                    and all(isinstance(o, (ast.Is, ast.IsNot)) for o in p.ops)
+                    and all(x is n or (isinstance(x, ast.Constant) and x.value is None) for x in [p.left] + p.comparators)
+                ):
+                    continue
+                if isinstance(p, ast.Call) and len(p.args) == 1 and p.args[0] is n and all(kw.arg in PURE_KW for kw in p.keywords):
+                    f = p.func
+                    if isinstance(f, ast.Name) and f.id in PURE_BUILTIN:
+                        continue
+                    if self.np_ok and isinstance(f, ast.Attribute) and isinstance(f.value, ast.Name) and f.value.id == "np" and f.attr in PURE_NP:
+                        continue
+                return f"tracked variable {n.id} in a context through which it could be written or aliased: {ast.unparse(p)[:70] if p is not None else n.id}"
+        # stores / deletes: plain names, and anything written THROUGH a protected name (x[..] = v, x.attr = v, del x[..])
+        for name in sorted(_assigned(node)):
+            if self.protected(name):
+                return f"(re)binding / deletion of the protected variable {name}"
+            if name in RESERVED or name in DENY_NAMES:
+                return f"re-binding of the reserved name {name}"
+        for n in ast.walk(node):
+            if isinstance(n, (ast.Subscript, ast.Attribute, ast.Starred)) and isinstance(n.ctx, (ast.Store, ast.Del)):
+                for m in ast.walk(n):
+                    if isinstance(m, ast.Name) and self.protected(m.id):
+                        return f"write through the protected variable {m.id}: {ast.unparse(n)[:60]}"
+        return None
+
+    def inert(self, node, what):
+        why = self.why_not_inert(node)
+        if why is not None:
+            raise Fail(f"{what} outside the grammar touches a protected variable: {why} [{ast.unparse(node)[:80]}]")
+
+    def skip(self, st):
+        """a statement outside the grammar: must be inert; the names it binds are (re)bound as plain locals"""
+        self.inert(st, "statement")
+        for n in sorted(_assigned(st)):
+            self.bindname(n)
+
+    # ------------------------------------------------------------------ grammar
     def thr_of(self, node):
         if isinstance(node, ast.Name) and self.r(node.id) in self.thr:
             return self.thr[self.r(node.id)]
@@ -101,6 +284,8 @@ class Tr:
         k = self.hc_key(node)
         if k in THR:
             return THR[k]
+        if k is None:
+            self.inert(node, "threshold expression")
         return "Thr.other"
 
     def hc_key(self, node):
@@ -136,19 +321,105 @@ class Tr:
 
     def body(self, body, guards):
         for st in body:
+            if self.ret is not None and not self.prefix:
+                raise Fail(f"statement after the return of the result: {ast.unparse(st)[:60]}")
+            if self.helper_ret is not None and self.prefix:
+                raise Fail(f"statement after the return of a helper: {ast.unparse(st)[:60]}")
             self.stmt(st, guards)
+
+    def _is_run_params(self, v):
+        if isinstance(v, ast.Attribute) and v.attr == "run_params" and isinstance(v.value, ast.Name) and v.value.id == "self":
+            return True
+        return isinstance(v, ast.Name) and v.id in self.rp_names
+
+    def _args(self, call):
+        """the arguments of a `gen.f(...)` call in the order of f's parameters (keywords bound through the signature read
+        from functions/gen.py of the same tree); a parameter left to its default is None"""
+        f = call.func.attr
+        if any(isinstance(a_, ast.Starred) for a_ in call.args) or any(kw.arg is None for kw in call.keywords):
+            raise Fail(f"gen.{f}: starred arguments are outside the grammar")
+        if not call.keywords:
+            return list(call.args)
+        sig = self.gen_sig.get(f)
+        if sig is None:
+            raise Fail(f"gen.{f}: keyword arguments, and the signature of gen.{f} could not be read")
+        out = list(call.args) + [None] * (len(sig) - len(call.args))
+        if len(call.args) > len(sig):
+            raise Fail(f"gen.{f}: too many arguments")
+        for kw in call.keywords:
+            if kw.arg not in sig or out[sig.index(kw.arg)] is not None:
+                raise Fail(f"gen.{f}: unknown / repeated keyword {kw.arg}")
+            out[sig.index(kw.arg)] = kw.value
+        while out and out[-1] is None:
+            out.pop()
+        if any(a_ is None for a_ in out):
+            raise Fail(f"gen.{f}: an argument before a given one is left to its default")
+        return out
+
+    def _src(self, node):
+        """the tracked variable a plain-name argument of a modelled call stands for"""
+        return self.r(_name(node))
+
+    def _blank_form(self, st):
+        """(X, m) for `X[np.logical_not(m)] = np.nan`, else None.  (`~m` / `np.invert(m)` is deliberately not accepted:
+        the masks of HC_damp / HC_cov / HC_phi_comp are integer arrays, `~m` would be an integer index.)"""
+        if not (isinstance(st, ast.Assign) and len(st.targets) == 1):
+            return None
+        tgt, val = st.targets[0], st.value
+        if not (isinstance(tgt, ast.Subscript) and isinstance(tgt.value, ast.Name)):
+            return None
+        if ast.unparse(val) not in NAN_EXPRS or (ast.unparse(val).startswith("np.") and not self.np_ok):
+            return None
+        sl = tgt.slice
+        m = None
+        if (
+            self.np_ok
+            and _is_call(sl, "np")
+            and sl.func.attr == "logical_not"
+            and len(sl.args) == 1
+            and not sl.keywords
+            and isinstance(sl.args[0], ast.Name)
+        ):
+            m = sl.args[0].id
+        if m is None:
+            return None
+        if self.kind(self.canon(tgt.value.id)) != "obj" or self.kind(self.canon(m)) != "obj":
+            return None
+        return tgt.value.id, m
 
     def stmt(self, st, guards):
         g = "[" + ", ".join(guards) + "]"
+        bf = self._blank_form(st)
+        if bf is not None:
+            x, m = self.r(bf[0]), self.r(bf[1])
+            if x in self.lists or m in self.lists:
+                raise Fail(f"in-place blanking of / by a list: {ast.unparse(st)[:60]}")
+            self.stmts.append((g, f'Stmt.blank "{x}" "{m}"'))
+            # value semantics of the model vs object semantics of Python: lists that hold this very object are now stale
+            for l, snap in self.listsnap.items():
+                if any((x, v) in snap for v in self.version.get(x, {0})):
+                    self.stale.add(l)
+            return
         if isinstance(st, ast.Assign) and len(st.targets) == 1:
             tgt, val = st.targets[0], st.value
+            # rp = self.run_params  (only when it is the single binding of that name, see translate)
             # hc = self.run_params.hc
             if isinstance(tgt, ast.Name) and isinstance(val, ast.Attribute) and val.attr == "hc":
-                self.hcvar = self.bindname(tgt.id)
+                if not self._is_run_params(val.value):
+                    raise Fail(f"criteria dictionary taken from something that is not self.run_params: {ast.unparse(val)[:60]}")
+                if self.hcvar is not None or guards:
+                    raise Fail("criteria dictionary bound twice / under a guard")
+                if self.protected(tgt.id):
+                    raise Fail(f"{tgt.id} re-bound to the criteria dictionary")
+                self.hcvar = self.bind_m(tgt.id)
                 return
             if isinstance(tgt, ast.Name) and self.hcvar and self.hc_key(val) is not None:
                 k = self.hc_key(val)
-                c = self.bindname(tgt.id)
+                if self.kind(self.canon(tgt.id)) in ("obj", "hc"):
+                    raise Fail(f"{tgt.id} re-bound to a criterion value")
+                if guards:
+                    raise Fail(f"criterion value read under a guard: {ast.unparse(st)[:60]}")
+                c = self.bind_m(tgt.id)
                 if k in THR:
                     self.thr[c] = THR[k]
                 else:
@@ -158,9 +429,17 @@ class Tr:
                 if _is_call(val, mod, fn):
                     if guards or self.prefix:
                         raise Fail("pole computation under a guard / inside a helper")
+                    if self.pole_seen:
+                        raise Fail("second pole computation")
+                    for a_ in list(val.args) + [kw.value for kw in val.keywords]:
+                        self.inert(a_, f"argument of {fn}")
                     ns = _names(tgt)
-                    if len(ns) != len(tbls):
-                        raise Fail(f"{fn}: expected {len(tbls)} results, got {len(ns)}")
+                    if len(ns) != len(tbls) or len(set(ns)) != len(ns):
+                        raise Fail(f"{fn}: expected {len(tbls)} distinct results, got {len(ns)}")
+                    for n_ in ns:
+                        if self.protected(n_):
+                            raise Fail(f"{n_} re-bound by the pole computation")
+                    ns = [self.bind_m(n_) for n_ in ns]
                     self.init = list(zip(ns, tbls))
                     for n_, tb in self.init:
                         self.tblof[n_] = tb
@@ -169,48 +448,69 @@ class Tr:
                     return
             if _is_call(val, "gen"):
                 f = val.func.attr
+                args_ = self._args(val)
                 if f in CRIT1:
-                    src = self.r(_name(val.args[0]))
+                    if len(args_) != (1 if f == "HC_conj" else 2):
+                        raise Fail(f"gen.{f} call form")
+                    src = self._src(args_[0])
                     if f == "HC_conj":
                         c = "Crit.conj"
                     else:
-                        c = f"Crit.{CRIT1[f]} {self.thr_of(val.args[1])}"
+                        c = f"Crit.{CRIT1[f]} {self.thr_of(args_[1])}"
                     dTn, dMn = _names(tgt)
-                    dT, dM = self.bindname(dTn, guards), self.bindname(dMn, guards)
+                    if dTn == dMn:
+                        raise Fail(f"gen.{f}: table and mask bound to the same name")
+                    srctb = self.tblof.get(src)
+                    dT, dM = self.bind_m(dTn, guards), self.bind_m(dMn, guards)
                     self.stmts.append((g, f'Stmt.hc1 ({c}) "{dT}" "{dM}" "{src}"'))
                     self.tracked |= {dT, dM}
-                    if src in self.tblof:
-                        self.tblof[dT] = self.tblof[src]
+                    if srctb is not None:
+                        self.tblof[dT] = srctb
                     return
                 if f == "HC_phi_comp":
-                    src = self.r(_name(val.args[0]))
-                    if len(val.args) != 3 or val.keywords:
+                    if len(args_) != 3:
                         raise Fail("HC_phi_comp call form")
-                    t1, t2 = self.thr_of(val.args[1]), self.thr_of(val.args[2])
+                    src = self._src(args_[0])
+                    t1, t2 = self.thr_of(args_[1]), self.thr_of(args_[2])
                     d3n, d4n = _names(tgt)
-                    d3, d4 = self.bindname(d3n, guards), self.bindname(d4n, guards)
+                    if d3n == d4n:
+                        raise Fail("HC_phi_comp: both masks bound to the same name")
+                    d3, d4 = self.bind_m(d3n, guards), self.bind_m(d4n, guards)
                     self.stmts.append((g, f'Stmt.hcPhi "{d3}" "{d4}" "{src}" {t1} {t2}'))
                     self.tracked |= {d3, d4}
                     return
                 if f == "applymask":
-                    l = self.r(_name(val.args[0]))
+                    if len(args_) != 3:
+                        raise Fail("applymask call form")
+                    l = self._src(args_[0])
                     if l not in self.lists:
                         raise Fail(f"applymask on something that is not a tracked list: {l}")
-                    m = self.r(_name(val.args[1]))
+                    m = self._src(args_[1])
+                    self.inert(args_[2], "third argument of applymask")
                     elts = self.listelts.get(l, [])
-                    dsts = [self.bindname(d, guards) for d in _names(tgt)]
+                    tbs = [self.tblof.get(e) for e in elts]
+                    tn = _names(tgt)
+                    if len(set(tn)) != len(tn):
+                        raise Fail("applymask: a name occurs twice among the targets")
+                    dsts = [self.bind_m(d, guards) for d in tn]
                     ds = ", ".join(f'"{d}"' for d in dsts)
                     self.stmts.append((g, f'Stmt.apply [{ds}] "{l}" "{m}"'))
                     self.tracked |= set(dsts)
-                    for d, e in zip(dsts, elts):
-                        if e in self.tblof:
-                            self.tblof[d] = self.tblof[e]
+                    for d, tb in zip(dsts, tbs):
+                        if tb is not None:
+                            self.tblof[d] = tb
                     return
                 if f == "SC_apply":
-                    args = [self.r(_name(a)) for a in val.args[:3]]
+                    if len(args_) < 3:
+                        raise Fail("SC_apply call form")
+                    args = [self._src(a) for a in args_[:3]]
+                    for a_ in args_[3:]:
+                        self.inert(a_, "argument of SC_apply")
                     if guards:
                         raise Fail("SC_apply under a guard")
-                    lab = self.bindname(_name(tgt))
+                    if self.lab is not None:
+                        raise Fail("second SC_apply")
+                    lab = self.bind_m(_name(tgt))
                     as_ = ", ".join(f'"{a}"' for a in args)
                     self.stmts.append((g, f'Stmt.bind "{lab}" [{as_}]'))
                     self.lab = lab
@@ -219,14 +519,18 @@ class Tr:
                     return
                 raise Fail(f"unknown gen call {f}")
             if isinstance(val, ast.List) and isinstance(tgt, ast.Name) and all(isinstance(e, ast.Name) for e in val.elts) and (
-                set(self.r(e.id) for e in val.elts) & self.tracked
+                set(self.canon(e.id) for e in val.elts) & self.tracked
             ):
                 elts = [self.r(e.id) for e in val.elts]
+                if any(e in self.lists for e in elts):
+                    raise Fail(f"list of lists: {ast.unparse(st)[:60]}")
+                snap = [(e, v) for e in elts for v in self.version.get(e, {0})]
                 vs = ", ".join(f'"{e}"' for e in elts)
-                l = self.bindname(tgt.id, guards)
+                l = self.bind_m(tgt.id, guards)
                 self.stmts.append((g, f'Stmt.bind "{l}" [{vs}]'))
                 self.lists.add(l)
                 self.listelts[l] = elts
+                self.listsnap[l] = snap
                 self.tracked.add(l)
                 return
             # a call of a helper (module-level function or method of the class) that carries mask code: inlined
@@ -234,17 +538,13 @@ class Tr:
             if h is not None and any(_is_call(n, "gen") for n in ast.walk(h)):
                 self._inline(h, val, tgt, guards)
                 return
-            # any other assignment must not touch a tracked variable once poles exist
-            if self.pole_seen and ({self.r(n) for n in _assigned(st)} & self.tracked or _assigned(st) & self.tracked):
-                raise Fail(f"untranslatable assignment to a tracked variable: {ast.unparse(st)[:80]}")
-            for n in _assigned(st):
-                self.bindname(n)
+            # any other assignment must not touch a protected variable
+            self.skip(st)
             return
         if isinstance(st, ast.If):
-            touches = any(_is_call(n, "gen") or self._helper_of(n) is not None for n in ast.walk(st)) or (
-                self.pole_seen and (_assigned(st) & self.tracked)
-            )
-            if not touches:
+            carries = any(_is_call(n, "gen") or self._helper_of(n) is not None for n in ast.walk(st))
+            if not carries and self.why_not_inert(st) is None:
+                self.skip(st)
                 return
             if st.orelse:
                 raise Fail("else branch around mask code")
@@ -255,18 +555,30 @@ class Tr:
                 v = st.value
                 if guards:
                     raise Fail("return under a guard inside a helper")
+                if v is None:
+                    raise Fail("helper returns nothing")
                 self.helper_ret = [self.r(n) for n in _names(v)]
                 return
+            if guards:
+                raise Fail("return of the result under a guard")
             if not isinstance(st.value, ast.Call):
                 raise Fail("return is not a constructor call")
-            self.ret = [(k.arg, self.r(_name(k.value))) for k in st.value.keywords if isinstance(k.value, ast.Name)]
+            self.inert(st.value.func, "result constructor")
+            for a_ in st.value.args:
+                self.inert(a_, "positional argument of the result constructor")
+            ret = []
+            for k in st.value.keywords:
+                if isinstance(k.value, ast.Name) and k.arg is not None:
+                    ret.append((k.arg, self.r(k.value.id)))
+                else:
+                    self.inert(k.value, "field of the result constructor")
+            self.ret = ret
             return
-        if isinstance(st, ast.Expr):  # docstring / bare call
-            if self.pole_seen and any(isinstance(n, ast.Name) and self.r(n.id) in self.tracked for n in ast.walk(st)) and not isinstance(st.value, ast.Constant):
-                raise Fail(f"expression statement touching tracked variables: {ast.unparse(st)[:80]}")
+        if isinstance(st, ast.Expr) and isinstance(st.value, ast.Constant):  # docstring
             return
-        if self.pole_seen and (_assigned(st) & self.tracked):
-            raise Fail(f"untranslatable statement touching tracked variables: {ast.unparse(st)[:80]}")
+        # everything else: expression statements (bare calls), augmented / annotated assignments, multiple-target
+        # assignments, del, for / while / with / try / match, nested definitions, ...
+        self.skip(st)
 
     def _helper_of(self, val):
         """FunctionDef of `helper(...)` / `self.helper(...)` when it is defined in the same module / class"""
@@ -287,6 +599,8 @@ class Tr:
             params = params[1:]
         if h.args.vararg or h.args.kwarg or h.args.kwonlyargs:
             raise Fail(f"helper {h.name}: unsupported signature")
+        if h.decorator_list:
+            raise Fail(f"helper {h.name}: decorated")
         bound = {}
         if len(call.args) > len(params):
             raise Fail(f"helper {h.name}: too many arguments")
@@ -298,7 +612,7 @@ class Tr:
             bound[kw.arg] = kw.value
         if set(bound) != set(params):
             raise Fail(f"helper {h.name}: defaults are not supported")
-        saved = (self.alias, self.prefix, self.helper_ret, self.inplace)
+        saved = (self.alias, self.prefix, self.helper_ret, self.inplace, self.scope)
         self.inplace = set()
         new_alias = {}
         for p_, a in bound.items():
@@ -310,28 +624,56 @@ class Tr:
         self.alias = new_alias
         self.prefix = f"{saved[1]}{h.name}{self.depth}."
         self.helper_ret = None
+        self.scope = h
+        self.scopes.append(h)
+        for p_, c_ in new_alias.items():
+            self.ever.add((id(h), p_))
         body = [s_ for s_ in h.body if not (isinstance(s_, ast.Expr) and isinstance(s_.value, ast.Constant))]
         self.body(body, guards)
         ret = self.helper_ret
         inplace = self.inplace
-        self.alias, self.prefix, self.helper_ret, self.inplace = saved
+        self.alias, self.prefix, self.helper_ret, self.inplace, self.scope = saved
         self.depth -= 1
         if ret is None:
             raise Fail(f"helper {h.name}: no plain return of names")
         tnames = _names(tgt)
-        if len(tnames) != len(ret):
-            raise Fail(f"helper {h.name}: {len(ret)} values returned, {len(tnames)} targets")
+        if len(tnames) != len(ret) or len(set(tnames)) != len(tnames):
+            raise Fail(f"helper {h.name}: {len(ret)} values returned, {len(tnames)} (distinct) targets")
         # a caller variable the helper overwrote in place (conditional rebinding of a parameter) must be re-bound by the
         # caller from the helper's results: otherwise the in-place model would misrepresent Python's call-by-object
         # ... if the caller does not, its (unchanged) object differs from the model's variable from here on: the variable is
         # poisoned -- harmless as long as the caller never reads it again, a translation failure as soon as it does
         for t, c in zip(tnames, ret):
+            if t in RESERVED or t in DENY_NAMES:
+                raise Fail(f"re-binding of the reserved name {t}")
+            old = self.canon(t)
+            if old is not None and old != c and self.kind(old) in ("scalar", "hc"):
+                raise Fail(f"{t} (a criterion value) re-bound from a helper")
             self.alias[t] = c  # the caller's name now stands for the helper's variable (no statement needed)
+            self.ever.add((id(self.scope), t))
         rebound = {self.alias.get(t, t) for t in tnames}
         if self.depth == 0:
             self.poisoned |= (inplace - rebound)
         elif not inplace <= rebound:
             raise Fail(f"helper {h.name}: conditionally rebinds parameters {sorted(inplace - rebound)} that the caller keeps using")
+
+    def closure_check(self):
+        """nested functions / lambdas / classes may run later: they must not mention any name that stands for a protected
+        variable at any time in the enclosing function"""
+        for fn in self.scopes:
+            names = {n for (sid, n) in self.ever if sid == id(fn)}
+            for st in fn.body:
+                for n in ast.walk(st):
+                    if isinstance(n, (ast.FunctionDef, ast.AsyncFunctionDef, ast.Lambda, ast.ClassDef)):
+                        for m in ast.walk(n):
+                            nm = m.id if isinstance(m, ast.Name) else None
+                            if isinstance(m, (ast.Global, ast.Nonlocal)):
+                                if set(m.names) & names:
+                                    nm = sorted(set(m.names) & names)[0]
+                            if nm in names:
+                                raise Fail(f"nested function / lambda / class in {fn.name} mentions the protected variable {nm}")
+                    if isinstance(n, (ast.Global, ast.Nonlocal)) and set(n.names) & names:
+                        raise Fail(f"global / nonlocal declaration of a protected variable in {fn.name}")
 
 
 def find_run(trees, mod, cls):
@@ -357,18 +699,74 @@ def find_run(trees, mod, cls):
         c = nxt[0]
 
 
+def read_sources(repo):
+    srcs = {mod: open(os.path.join(repo, "src", "pyoma2", "algorithms", f"{mod}.py")).read() for mod in ("ssi", "plscf")}
+    srcs["gen"] = open(os.path.join(repo, "src", "pyoma2", "functions", "gen.py")).read()  # signatures only (keyword arguments)
+    return srcs
+
+
+def _gen_signatures(text):
+    out = {}
+    for n in _parse(text).body:
+        if isinstance(n, ast.FunctionDef) and not (n.args.vararg or n.args.kwarg or n.args.kwonlyargs):
+            out[n.name] = [a.arg for a in n.args.posonlyargs + n.args.args]
+    return out
+
+
+def _top_bindings(tree, name):
+    """module-level statements that bind `name`"""
+    return [st for st in tree.body if name in ({st.name} if isinstance(st, (ast.FunctionDef, ast.AsyncFunctionDef, ast.ClassDef)) else _assigned(st))]
+
+
+def _module_ok(tree, mod):
+    """the module-level names the grammar relies on are what they seem: `gen` and the pole module come from
+    pyoma2.functions (bound once, by import); returns whether `np` is numpy"""
+    for name in ("gen", mod):
+        b = _top_bindings(tree, name)
+        ok = len(b) == 1 and (
+            (
+                isinstance(b[0], ast.ImportFrom)
+                and (b[0].module, b[0].level) in (("pyoma2.functions", 0), ("functions", 2))
+                and any(a.name == name and a.asname in (None, name) for a in b[0].names)
+            )
+            or (isinstance(b[0], ast.Import) and any(a.name == f"pyoma2.functions.{name}" and a.asname == name for a in b[0].names))
+        )
+        if not ok:
+            raise Fail(f"algorithms/{mod}.py: `{name}` is not bound (once) by an import of pyoma2.functions.{name}")
+    b = _top_bindings(tree, "np")
+    return len(b) == 1 and isinstance(b[0], ast.Import) and any(a.name == "numpy" and a.asname == "np" for a in b[0].names)
+
+
 def translate(repo):
-    trees = {}
-    for mod in ("ssi", "plscf"):
-        p = os.path.join(repo, "src", "pyoma2", "algorithms", f"{mod}.py")
-        trees[mod] = ast.parse(open(p).read())
+    return translate_sources(read_sources(repo))
+
+
+_PARSED = {}
+
+
+def _parse(text):
+    if text not in _PARSED:
+        if len(_PARSED) > 8:
+            _PARSED.clear()
+        tree = ast.parse(text)
+        _PARSED[text] = tree
+    return _PARSED[text]
+
+
+def translate_sources(srcs, classes=None):
+    """srcs: {"ssi": source text of algorithms/ssi.py, "plscf": ...}; classes: the (module, class) pairs to translate
+    (default: all six -- anything else is for the self-test only)"""
+    classes = CLASSES if classes is None else classes
+    trees = {mod: _parse(srcs[mod]) for mod in ("ssi", "plscf")}
+    np_ok = {mod: _module_ok(trees[mod], mod) for mod in trees}
+    gen_sig = _gen_signatures(srcs["gen"]) if "gen" in srcs else {}
     out = []
     out.append("import PyomaVerif.Model.HcProg")
     out.append("/-! GENERATED by harness/translate_hc.py from /repo/src/pyoma2/algorithms/{ssi,plscf}.py — do not edit. -/")
     out.append("namespace PV.Hc.Gen")
     out.append("open PV.Hc")
     summary = {}
-    for mod, cls in CLASSES:
+    for mod, cls in classes:
         fn, owner = find_run(trees, mod, cls)
         t = Tr()
         classes = {n_.name: n_ for n_ in trees[mod].body if isinstance(n_, ast.ClassDef)}
@@ -393,9 +791,31 @@ def translate(repo):
             for m_ in n_.body:
                 if isinstance(m_, ast.FunctionDef) and m_.name != "run":
                     t.helpers["self." + m_.name] = m_
-        t.body(fn.body, [])
+        t.np_ok = np_ok[mod]
+        t.gen_sig = gen_sig
+        t.scope = fn
+        t.scopes.append(fn)
+        if fn.decorator_list:
+            raise Fail(f"{cls}.run is decorated")
+        # rp = self.run_params, when this is the only binding of the name in run()
+        for st_ in fn.body:
+            if (
+                isinstance(st_, ast.Assign)
+                and len(st_.targets) == 1
+                and isinstance(st_.targets[0], ast.Name)
+                and t._is_run_params(st_.value)
+                and sum(st_.targets[0].id in _assigned(x) for x in fn.body) == 1
+            ):
+                t.rp_names.add(st_.targets[0].id)
+        try:
+            t.body(fn.body, [])
+            t.closure_check()
+        except Fail as e:
+            raise Fail(f"{cls}.run: {e}") from None
         if not t.pole_seen or t.ret is None or t.lab is None:
             raise Fail(f"{cls}: pole computation / return / SC_apply not found")
+        if ("Lab", t.lab) not in t.ret:
+            raise Fail(f"{cls}: the label table returned is not the result of SC_apply")
         init = ", ".join(f'("{v}", {tb})' for v, tb in t.init)
         stm = ",\n    ".join(f"({g}, {s})" for g, s in t.stmts)
         ret = ", ".join(f'("{k}", "{v}")' for k, v in t.ret)
